@@ -29,6 +29,14 @@ for cmd, dmax, q in _CMDS:
                        include_env=("log_stub", "memfile", "memset_model", "snprintf_model"), timeout=300, kf=["cmdstr0"],
                        functions=["sf_command"], bounds="datasize in [0, %d]; data NULL or exact-size heap block; handle NULL or arbitrary I_open state; metadata presence mask symbolic" % dmax))
 
+for sel, refused in (("SEL_BEXT", 1), ("SEL_CART", 1), ("SEL_BEXT", 0), ("SEL_CART", 0)):
+    HARNESSES.append(H("metaset." + sel[4:].lower() + (".refused" if refused else ".any"), "C17/meta_set.c", tiers=("thorough",), link=["common", "command", "broadcast", "cart", "dither", "float32", "double64", "strings", "chunk", "id3"],
+                       stubs=["psf_log_printf", "psf_memset"], defines=dict({sel: 1, "FR_MAX": 3, "MF_CAP": 16, "PSF_MEMSET_MAX": 64, "SNP_MAX": 300, "MEMCPY_MAX": 2200}, **({"ONLY_REFUSED": 1} if refused else {})),
+                       unwind=40, unwindset=["psf_memset.0:65", "snprintf.0:301", "snprintf.1:301", "strlen.0:400", "psf_strlcpy_crlf.0:300", "psf_strlcat.0:300", "memcpy.0:2201", "memset.0:2201"],
+                       checks="mem", include_env=("log_stub", "memfile", "memset_model", "snprintf_model", "clock_model"), timeout=600 if refused else 3000,
+                       functions=["sf_command(SFC_SET_BROADCAST_INFO/SFC_SET_CART_INFO)", "broadcast_var_set", "cart_var_set"],
+                       bounds="datasize = fixed part + 0..8 bytes (symbolic), length field any 32-bit value"))
+
 # the scanning commands (SFC_CALC_*) have their own harness family (L4/calc.c), shared with C18
 import importlib.util, os
 _spec = importlib.util.spec_from_file_location("reg_C18_for_C17", os.path.join(os.path.dirname(os.path.abspath(__file__)), "C18.py"))
